@@ -13,7 +13,7 @@ import ast
 from ..engine import rule
 from ..model import Undecided
 from ..cfg import dotted, call_name, is_call, simple_name, unparse, const_value, contains, enclosing, implied
-from ..flow import Defs, depends
+from ..flow import Canon, Defs, depends
 from ..decide import table, ret_kind, expr_table
 from ..util import keyword, returns_of, calls_in, inside, order_key, arg_of
 
@@ -318,20 +318,34 @@ def c10c(ctx):
     for qn, svc in ((TILE + ':TileServer.authorized_tile_layers', 'tms'), (WMTS + ':WMTSServer.authorized_tile_layers', 'wmts')):
         fn = ctx.fn(qn)
         g = fn.cfg
-        adds = g.find(lambda x: is_call(x, 'allowed_layers.append')) + [(n, g.stmt[n]) for n in g.find_stmts(
-            lambda s: isinstance(s, ast.Assign) and isinstance(s.targets[0], ast.Subscript) and unparse(s.targets[0].value) == 'allowed_layers')]
-        ok = bool(adds) and all(g.guarded(n, lambda at: '.get(' in at.text and "'tile'" in at.text, True) for n, x in adds)
-        # the same list written as a comprehension: the filter carries the permission test
-        comps = [s_.value for s_ in fn.walk() if isinstance(s_, ast.Assign) and unparse(s_.targets[0]) == 'allowed_layers' and
-                 isinstance(s_.value, (ast.ListComp, ast.DictComp))]
-        if comps and not adds:
-            ok = all(any(at.op is None and '.get(' in at.text and "'tile'" in at.text and p is True
-                         for t in c.generators[0].ifs for at, p in implied(t, True)) for c in comps)
+        # every value the function returns is either "all layers" (checked below) or built from layers that passed the tile
+        # permission test: appended / inserted on an edge where the permission holds, or selected by a comprehension filter
+        cfm = Canon(fn)
+        perm = lambda at: '.get(' in at.text and "'tile'" in at.text
+        ok = True
+        nsel = 0
+        for r in g.find_stmts(lambda s: isinstance(s, ast.Return) and s.value is not None):
+            v = cfm.expr(g.stmt[r].value)
+            if contains(v, lambda x: unparse(x) in ('self.layers', 'self.layers.values()')) and not isinstance(v, (ast.ListComp, ast.DictComp, ast.GeneratorExp)) and \
+                    not any(isinstance(x, (ast.ListComp, ast.DictComp, ast.GeneratorExp)) for x in ast.walk(v)):
+                continue        # all layers
+            comps = [x for x in ast.walk(v) if isinstance(x, (ast.ListComp, ast.DictComp, ast.GeneratorExp))]
+            if comps:
+                nsel += 1
+                ok = ok and all(any(perm(at) and p is True for t in c.generators[0].ifs for at, p in implied(t, True)) for c in comps[:1])
+            elif isinstance(g.stmt[r].value, ast.Name):
+                acc = g.stmt[r].value.id
+                adds = g.find(lambda x: is_call(x, acc + '.append')) + [(n, g.stmt[n]) for n in g.find_stmts(
+                    lambda s: isinstance(s, ast.Assign) and isinstance(s.targets[0], ast.Subscript) and unparse(s.targets[0].value) == acc)]
+                nsel += 1
+                ok = ok and bool(adds) and all(g.guarded(n, perm, True) for n, x in adds)
+        ok = ok and nsel >= 1
         ctx.check(ok, fn.short + ':only-permitted-listed', 'a layer is listed only if its tile permission is set', fn)
         n, bad = _feature_default_false(fn)
         ctx.check(n >= 1 and not bad, fn.short + ':feature-default-false', 'default of the tile permission lookup is False', fn,
                   fail='feature lookup with a permitting default: %s' % bad)
-        full = g.find_stmts(lambda s: isinstance(s, ast.Return) and contains(s.value, lambda x: unparse(x) in ('self.layers', 'self.layers.values()')))
+        full = g.find_stmts(lambda s: isinstance(s, ast.Return) and contains(s.value, lambda x: unparse(x) in ('self.layers', 'self.layers.values()')) and
+                            not any(isinstance(x, (ast.ListComp, ast.DictComp, ast.GeneratorExp)) for x in ast.walk(s.value)))
         ok = bool(full) and all(g.guarded(r, lambda at: "'full'" in at.text, True) or g.guarded(r, lambda at: 'mapproxy.authorize' in at.text, False) for r in full)
         ctx.check(ok, fn.short + ':all-only-full', 'all layers are listed only without callback or for "full"', fn)
     fn = ctx.fn(WMS + ':WMSServer.authorized_capability_layers')
